@@ -2,7 +2,7 @@
 from ..engine import Leg, Prop
 from .. import structh as H
 
-W_LAWS = {"NU": 3, "NL": 3, "SL": 6, "SA": 6, "NV": 1, "UAV": 0.5, "NE": 0.3}
+W_LAWS = {"NU": 3, "NL": 3, "SL": 6, "SA": 6, "NV": 1, "UAV": 0.5, "NE": 0.3, "CLONE": 1.0, "LAU": 1.0}
 
 
 def binding_violations(snap):
@@ -51,6 +51,9 @@ class LawsHistory(Leg):
     def oracle(self, case, obs):
         if obs is None:
             return []
+        m = H.clone_violations(case["ops"], obs, fields=("kind", "ulaws", "lapp", "rules", "uverts"))
+        if m:
+            return m
         created = {}
         prev_n = 0
         for i, (op, r) in enumerate(zip(case["ops"], obs)):
